@@ -268,6 +268,21 @@ func (s *Server) parseSearchScanBaseTokens(
 		return
 	}
 
+	// Interpreters taken for WHEREEVAL must go back to the pool when the parse
+	// fails later on: the caller only closes the whereevals of a successful
+	// parse, and the pool is bounded.
+	var pendingLua *lua.LState
+	defer func() {
+		if err != nil {
+			if pendingLua != nil {
+				s.luapool.Put(pendingLua)
+			}
+			for _, whereeval := range t.whereevals {
+				whereeval.Close()
+			}
+		}
+	}()
+
 	fromFence := t.fence
 
 	var slimit string
@@ -419,6 +434,7 @@ func (s *Server) parseSearchScanBaseTokens(
 				if err != nil {
 					return
 				}
+				pendingLua = luaState
 
 				argsTbl := luaState.CreateTable(len(vs), 0)
 				for i = 0; i < nargs; i++ {
@@ -466,6 +482,7 @@ func (s *Server) parseSearchScanBaseTokens(
 				t.whereevals = append(t.whereevals, whereevalT{
 					c: s, luaState: luaState, fn: fn,
 				})
+				pendingLua = nil
 				continue
 			case "nofields":
 				vs = nvs
